@@ -41,6 +41,8 @@ Docs ==
   \cup {O1(q, O1(k, v)) : q \in {"not", "condition"}, k \in {"pattern", "code", "and", "or", "not"}, v \in Shapes}
   \cup {O2("a", v, "b", w) : v \in {Var("?v"), Str("x")}, w \in {Var("?v"), Var("?w"), Arr({Var("?v")})}}
   \cup {O2("id", v, "!x", Num(1)) : v \in Shapes}
+  \cup {O2("schedule", v, "action", GoodAction) : v \in Shapes \cup {Str("+whenever"), Str("* * *"), Str("+1h")}}   \* scheduled rules
+  \cup {O1("rule", O2("when", GoodWhen, k, v)) : k \in {"action", "actions", "condition"}, v \in Shapes}      \* a rule-shaped fact the canary event reaches
 
 VARIABLE d
 Init == d \in Docs
